@@ -140,6 +140,9 @@ func (c *Conn) ReadFrom(r io.Reader) (n int64, err error) {
 
 	// if there is no available buffer, create one.
 	if !bufNode.recyclable() || cap(bufNode.buf) == 0 {
+		// Force a fresh (recyclable) node: Malloc would carve the block out of the current
+		// non-recyclable node when that still has room, and Flush never resets such a node.
+		c.outputBuffer.len = 0
 		c.Malloc(block4k)
 		c.outputBuffer.write.Reset()
 		c.outputBuffer.len = cap(c.outputBuffer.write.buf)
